@@ -689,7 +689,7 @@ def _one_path(run, plan, timeout_ms, want_sample):
     ctx = SymCtx(plan, timeout_ms)
     _cur = ctx
     import signal
-    limit = int(os.environ.get('VERIF_PATH_TIMEOUT', '120'))
+    limit = int(os.environ.get('VERIF_PATH_TIMEOUT', '60'))
 
     def _alarm(signum, frame):
         raise PathTimeout()
